@@ -1083,6 +1083,21 @@ def run(ctx):
             elif kind == "ee":
                 guarded(lambda: eval_ee(line, h, d, wt, stats, notes), line, h)
     evaluate(hout, wtab)
+    # the specification machine HistSpec (append-only log + counter; theorem buffer_refines_spec) on every buffer
+    # case: it must show exactly what the deque model shows (which eval_hb compares with the implementation)
+    hb_idx = [i for i, c in enumerate(cases) if c[1] == "hb"]
+    sout = vlib.run_driver(["hbs" + lines[i][2:] for i in hb_idx])
+    def hb_mask(out):
+        return [c if c[0] == "G" else [c[0], c[2]] for c in split_calls(out)]
+    stats["spec_cases_compared"] = 0
+    for i, so in zip(hb_idx, sout):
+        stats["spec_cases_compared"] += 1
+        try:
+            same = hb_mask(so) == hb_mask(dout[i])
+        except Exception:
+            same = False
+        if not same:
+            corr_bad.append(("spec-vs-model", "HistSpec and HistBuf disagree: %s / %s" % (so[:200], dout[i][:200]), lines[i], hout[i]))
     # the same cases through a plain -O2 -DNDEBUG build without sanitizers (a subset in the quick tier)
     plain = build_plain()
     sub = [i for i, c in enumerate(cases) if c[1] != "hb" or c[2].get("src") != "grid" or i % (7 if quick else 1) == 0]
@@ -1137,7 +1152,7 @@ def run(ctx):
         "model_vs_impl_disagreements": len(corr_bad), "property_failures_on_impl": len(prop_bad),
         "model_deviation_notes": notes,
         "plain_build": {"cases": stats.get("plain_build_cases"), "new_failures": stats.get("plain_build_new_failures")},
-        "numeric": {k: stats.get(k) for k in ("max_model_err_over_tol", "max_model_err_at", "probe_weights_vs_model_max_rel", "ill_conditioned_rows_skipped", "weight_vectors_probed", "hb_full_reads")},
+        "numeric": {k: stats.get(k) for k in ("max_model_err_over_tol", "max_model_err_at", "probe_weights_vs_model_max_rel", "ill_conditioned_rows_skipped", "weight_vectors_probed", "hb_full_reads", "spec_cases_compared")},
         "sanitizer_crashes": len(logs),
     })
     ctx.assumptions += [
